@@ -56,6 +56,12 @@ def configs(tier):
     ]
     for name, procs, jobs, script, pk in base:
         b = 1 if not T else 2
+        if name == 'terminate_job/2proc':
+            # the same with an exit callback that takes a while
+            out.append((dict(name='terminate_job/2proc/slow-exit-callback',
+                             procs=procs, jobs=jobs, script=script, pool=pk,
+                             oracle='c08', slow_process_exit=True), b,
+                        4000 if not T else 60000))
         out.append((dict(name=name, procs=procs, jobs=jobs, script=script,
                          pool=pk, oracle='c08'), b,
                     4000 if not T else 60000))
